@@ -223,6 +223,19 @@ POST_EXPANSION = ["types::CommandLine::from_line", "types::split_tokens_by_pipes
                   "parsers::parser_line::tokens_to_redirections"]
 
 
+def sink_signature(descs):
+    sig = set()
+    for x in descs:
+        head = x.split("(", 1)[0].strip() if "(" in x and "==" not in x.split("(", 1)[0] else "=="
+        kind = "eq" if head == "==" or head in ("eq", "ne") else "prefix" if head == "starts_with" else \
+            "suffix" if head == "ends_with" else "match"
+        for lit in re.findall(r'"((?:[^"\\]|\\.)*)"', x):
+            for ch in lit:
+                if ch in "|&<>;":
+                    sig.add("%s:%s" % (kind, ch))
+    return ";".join(sorted(sig))
+
+
 def exposed_sinks_rule(ctx, crate, exposure):
     """While some pass leaves external text under an empty tag (exposure), every recogniser that runs after
     the expansion and accepts an empty tag is a place where that text becomes syntax.  One finding per
@@ -241,10 +254,10 @@ def exposed_sinks_rule(ctx, crate, exposure):
         if not ctx.require(bool(descs), "R13-2", "R13-2|sink-anchor|%s" % p, "no recogniser found in %s" % p, p):
             continue
         d = "; ".join(sorted(descs))
-        # keyed by the operator characters the function recognises (not by how many tests it spells them with:
-        # `contains('>')` next to a regex for `>` is the same recogniser; a test for a new operator is a new finding)
-        ops = "".join(sorted({ch for x in descs for lit in re.findall(r'"((?:[^"\\]|\\.)*)"', x) for ch in lit
-                              if ch in "|&<>;"}))
+        # keyed by the operator characters the function recognises and the kind of test (equality / match anywhere /
+        # prefix / suffix), not by how many times a test is spelled: `contains('>')` next to a regex for `>` is the same
+        # recogniser; a test for a new operator, or a wider kind of test for a known one, is a new finding
+        ops = sink_signature(descs)
         ctx.ob("R13-2", p, "recognisers {%s} never see expansion results carrying an empty tag" % d, not exposure,
                key="R13-2|sink|%s|%s" % (p, ops), where=where, crate=crate.kind,
                detail=None if not exposure else "exposed through: " + ", ".join(sorted(exposure)))
